@@ -1,5 +1,6 @@
 import Proofs.C16.Musig2Agg
 import Proofs.C16.SilentPayments
+import Proofs.C16.Pedersen
 /-!
 # C16 — property theorems only (see DESIGN.md §3 C16).
 
@@ -103,6 +104,12 @@ theorem musig2_adaptor_completes (L : Lawful o G) (H : Bytes → Bytes → Bytes
       bip340Verify o H (o.x v.Q) msg sig.1 sig.2 = true ∧
       extractAdaptor o H sig pre (honestCtx o l an tweaks msg (some (cbytes o (o.mul t o.gen)))) = .ok t :=
   adaptor_completes L H hp hn l hl tweaks msg an t ht0 ht1 han hv hR sigs hs
+
+/-- honest-signer hypotheses are satisfiable on secp256k1 (three signers, one key used twice) -/
+example : ∀ t ∈ [(⟨5, 7, 11⟩ : Signer), ⟨5, 13, 17⟩, ⟨9, 2, 3⟩], t.ok (EC.ops EC.secp256k1) := by
+  intro t ht
+  simp only [List.mem_cons, List.not_mem_nil, or_false] at ht
+  rcases ht with rfl | rfl | rfl <;> (unfold Signer.ok; decide)
 
 /-- the size hypotheses hold for secp256k1, and the generated sizes/placeholders are the ones the
 proofs used (a changed `_PK_SIZE`, `_SCALAR_SIZE`, `_NONCE_SIZE` or `_INF_BYTES` breaks this) -/
@@ -217,5 +224,17 @@ example : Gen.Interactive.DLEQ_SCALAR_SIZE = 32 ∧ Gen.Interactive.DLEQ_PROOF_S
     ∧ Gen.Interactive.SP_LABEL_SIZE = 4 ∧ Gen.Interactive.SP_K_MAX = 2323 := by decide
 /-- `LabelsOk` is satisfiable non-trivially: the empty map, and hypotheses of T9 hold for it -/
 example (L : Lawful o G) : LabelsOk o L [] := fun _ h => by cases h
+
+/-! ## Pedersen commitments -/
+
+/-- **T10 (Pedersen).** Whatever `commit(r, v)` answers, `verify(r, v, ·)` accepts; and `verify`
+accepts a point exactly when it is `r•G + v•H ≠ ∞` (`H` the second generator, any point). -/
+theorem pedersen_commit_verifies (L : Lawful o G) (Hp : α) (r v : Int) (C : α)
+    (h : pedersenCommit o Hp r v = .ok C) : pedersenVerify o Hp r v C = true :=
+  pedersen_verify_commit L Hp r v C h
+
+theorem pedersen_verify_characterised (L : Lawful o G) (Hp : α) (r v : Int) (C : α) :
+    pedersenVerify o Hp r v C = true ↔ L.abs C = r • L.abs o.gen + v • L.abs Hp ∧ L.abs C ≠ 0 :=
+  pedersen_verify_iff L Hp r v C
 
 end Props.C16
